@@ -33,7 +33,7 @@ META = dict(
                 'nothing is delivered; the notification names exactly the containers the call wrote, and with notification enabled a call that wrote and did not raise has notified; receivers are notified children first (on every int key and every string key that does not look like a number, where the KeyPath comparison is an order); every operation resets the memoised facts of every '
                 'node whose contents it changes, queries answer with the fact of the current contents, hence after any history every node reports what a computation from scratch gives. '
                 'Tie: step-level correspondence of event logs (receiver, path, payload with old and new contents), of which memo attributes every live node holds, and of the observed facts, '
-                'on a systematic sweep (every mutator x depth x subscriber placement x notification on/off), batch-shape and re-seat-then-write sweeps and generated histories; direct oracles for the event contract (incl. every reported location leads to the new value; true parent / path of every node after every step) and for freshness '
+                'on a systematic sweep (every mutator x depth x subscriber placement x notification on/off), batch-shape and re-seat-then-write sweeps and generated histories (observer classes created afresh per case, in five inheritance shapes); direct oracles for the event contract (incl. every reported location leads to the new value; true parent / path of every node after every step) and for freshness '
                 'against a copy rebuilt from JSON, also on typed trees with required/default fields, MISSING_VALUE and pg.oneof.'),
     level_note=('Trusted: Coq kernel; extraction cross-checked against vm_compute; the SymCore driver and the C09 observers (test classes, callbacks, reading the memo attributes). '
                 'Modelled, not verified: the Python code (tied by the correspondence). '
@@ -70,44 +70,95 @@ def _callback(updates):
     me = inspect.currentframe().f_back.f_locals.get('self')
     LOG.append((me, list(me.sym_path.keys), _payload(updates), dict(updates)))
 
-_CLASSES9 = None
-def classes9():
-  global _CLASSES9
-  if _CLASSES9 is None:
+# The three object classes of a case (class 0: overrides _on_change; class 1: overrides _on_bound only; class 2: nothing) come as a FAMILY that is
+# created afresh for every case (whatever pyglove keeps per class -- e.g. a memo of "does this class subscribe" -- starts empty, and the order
+# in which the classes of one family are first notified is the order of the case).  The family has one of several inheritance SHAPES with the same
+# observable classes: which class defines the handler and which inherits is part of the case (chosen by a stable hash of the case text).
+FAMILY_SHAPES = ['flat', 'handler-in-subclass-of-the-plain-class', 'two-levels-below-the-plain-class', 'handler-inherited-from-a-base',
+                 'common-base-without-handler']
+_OPQ9 = None
+def opq_classes():
+  global _OPQ9
+  if _OPQ9 is None:
     P = D.pg()
-    Any = P.typing.Any
-    @P.members([('x', Any(default=None)), ('y', Any(default=None))])
-    class EvA(P.Object):
-      """overrides _on_change: subscribes to field updates"""
-      def _on_change(self, field_updates):
-        if RECORDING[0]:
-          LOG.append((self, list(self.sym_path.keys), _payload(field_updates), dict(field_updates)))
-        return super()._on_change(field_updates)
-    @P.members([('x', Any(default=None)), ('y', Any(default=None)), ('z', Any(default=None))])
-    class EvB(P.Object):
-      """overrides _on_bound only: called on every change below, without payload"""
-      allow_symbolic_assignment = True
-      def _on_init(self):
-        self._in_init = True
-        try:
-          super()._on_init()
-        finally:
-          self._in_init = False
-      def _on_bound(self):
-        super()._on_bound()
-        if RECORDING[0] and not getattr(self, '_in_init', False):
-          LOG.append((self, list(self.sym_path.keys), [], None))
-    @P.members([('x', Any(default=None))])
-    class EvC(P.Object):
-      allow_symbolic_mutation = False
     class PureOpq(D.Opq, P.PureSymbolic, P.JSONConvertible):
       def to_json(self, **kw): return self.to_json_dict(dict(tag=self.tag))
     class NondetOpq(D.Opq, P.symbolic.NonDeterministic, P.JSONConvertible):
       def to_json(self, **kw): return self.to_json_dict(dict(tag=self.tag))
     class PlainOpq(D.Opq, P.JSONConvertible):
       def to_json(self, **kw): return self.to_json_dict(dict(tag=self.tag))
-    _CLASSES9 = dict(objs=[EvA, EvB, EvC], opq={1: NondetOpq, 2: PureOpq}, plain=PlainOpq)
-  return _CLASSES9
+    _OPQ9 = dict(opq={1: NondetOpq, 2: PureOpq}, plain=PlainOpq)
+  return _OPQ9
+
+def new_family(shape=0):
+  P = D.pg()
+  Any = P.typing.Any
+  F = lambda *names: [(nm, Any(default=None)) for nm in names]
+  def on_change(self, field_updates):
+    if RECORDING[0]:
+      LOG.append((self, list(self.sym_path.keys), _payload(field_updates), dict(field_updates)))
+    return P.Object._on_change(self, field_updates)
+  def on_init(self):
+    self._in_init = True
+    try:
+      P.Object._on_init(self)
+    finally:
+      self._in_init = False
+  def on_bound(self):
+    P.Object._on_bound(self)
+    if RECORDING[0] and not getattr(self, '_in_init', False):
+      LOG.append((self, list(self.sym_path.keys), [], None))
+  bare = dict(allow_symbolic_assignment=True, allow_symbolic_mutation=True, _on_init=on_init, _on_bound=on_bound)
+  full = dict(allow_symbolic_assignment=False, allow_symbolic_mutation=True, _on_change=on_change)
+  none = dict(allow_symbolic_mutation=False)
+  def mk(name, bases, attrs, fields):
+    cls = type(name, bases, dict(attrs, __module__=__name__, __qualname__=name))
+    return P.members(fields)(cls) if fields else cls
+  name = FAMILY_SHAPES[shape]
+  if name == 'flat':
+    EvC = mk('EvC', (P.Object,), none, F('x'))
+    EvA = mk('EvA', (P.Object,), full, F('x', 'y'))
+    EvB = mk('EvB', (P.Object,), bare, F('x', 'y', 'z'))
+  elif name == 'handler-in-subclass-of-the-plain-class':
+    # the plain class (no handler) is the base of the class with the handler and of the class with _on_bound
+    EvC = mk('EvC', (P.Object,), none, F('x'))
+    EvA = mk('EvA', (EvC,), full, F('y'))
+    EvB = mk('EvB', (EvC,), bare, F('y', 'z'))
+  elif name == 'two-levels-below-the-plain-class':
+    EvC = mk('EvC', (P.Object,), none, F('x'))
+    Mid = mk('EvMid', (EvC,), {}, None)
+    EvA = mk('EvA', (Mid,), full, F('y'))
+    EvB = mk('EvB', (Mid,), bare, F('y', 'z'))
+  elif name == 'handler-inherited-from-a-base':
+    HB = mk('EvHandlerBase', (P.Object,), full, None)
+    EvA = mk('EvA', (HB,), {}, F('x', 'y'))
+    EvC = mk('EvC', (P.Object,), none, F('x'))
+    EvB = mk('EvB', (P.Object,), bare, F('x', 'y', 'z'))
+  else:
+    NB = mk('EvPlainBase', (P.Object,), {}, None)
+    EvC = mk('EvC', (NB,), none, F('x'))
+    EvA = mk('EvA', (NB,), full, F('x', 'y'))
+    EvB = mk('EvB', (NB,), bare, F('x', 'y', 'z'))
+  return dict(objs=[EvA, EvB, EvC], shape=name, **opq_classes())
+
+_FAMILY = [None]
+def classes9():
+  if _FAMILY[0] is None:
+    _FAMILY[0] = new_family(0)
+  return _FAMILY[0]
+def family_shape_of(case):
+  import zlib
+  return zlib.crc32(repr(case[1:]).encode()) % len(FAMILY_SHAPES)
+def has_objects(t):
+  """does a case mention a pg.Object literal (forest or operation values)?"""
+  if isinstance(t, list):
+    if len(t) == 5 and t[0] == 1 and isinstance(t[1], int) and t[1] >= 2 and isinstance(t[2], list) and isinstance(t[4], list):
+      return True
+    return any(has_objects(x) for x in t)
+  return False
+def family_for(case):
+  """a fresh family for a case with objects (creating one costs ~5 ms); the others never look at the object classes"""
+  return new_family(family_shape_of(case)) if has_objects(case[1:]) else None
 
 class Impl9(D.Impl):
   def __init__(self):
@@ -138,9 +189,11 @@ class Impl9(D.Impl):
     return o
 
 @contextlib.contextmanager
-def installed():
-  """The SymCore driver configured for C09 (classes, rebind keyword arguments); restored afterwards."""
-  old_classes, old_run_op = D._CLASSES, D.run_op
+def installed(family=None):
+  """The SymCore driver configured for C09 (classes, rebind keyword arguments); restored afterwards.  [family]: a fresh class family for this case."""
+  old_classes, old_run_op, old_family = D._CLASSES, D.run_op, _FAMILY[0]
+  if family is not None:
+    _FAMILY[0] = family
   D._CLASSES = classes9()['objs']
   def run_op9(impl, t, op, new_results, val):
     if op[0] == D.REBIND and getattr(impl, 'rebind_kw', None):
@@ -153,6 +206,7 @@ def installed():
     yield
   finally:
     D._CLASSES, D.run_op = old_classes, old_run_op
+    _FAMILY[0] = old_family
 
 # ---- observations -------------------------------------------------------------------------------------------------------------
 def live_nodes(impl):
@@ -178,7 +232,7 @@ def observe(x):
 def run_case9(case, oracle=None):
   """case = (quirks, (lit ...), ((scope op observe) ...)).  Returns the outcome tree (see coq/Model/SymCoreEvents.v)."""
   _, init, steps = case
-  with installed():
+  with installed(family_for(case)):
     impl = Impl9()
     _IMPL[0] = impl
     for lt in init:
@@ -1365,6 +1419,89 @@ def scope_checks(ctx):
   ctx.extra['scope_checks'] = n
   return n
 
+# ---- class hierarchies of observers (direct oracle) ----------------------------------------------------------------------------------------
+def hierarchy_case(fam, perm):
+  """three pg.Object classes B0 <- B1 <- B2, created afresh; bit i of [fam]: Bi defines _on_change itself.  A Dict with a callback holds a List
+  with a callback holding one instance of each class (the B2 instance holds a B0 instance in a field).  One write into each instance in the
+  order [perm] (so every order of FIRST notification of the three classes occurs), a write into the nested instance, one batched rebind from the
+  root.  Expected, computed here from the definition: a receiver is an object whose class has a handler somewhere in its MRO, the list, the
+  dict; each hears once, deepest first, with exactly {relative path: (old, new)}.  Returns [(signature, what)]."""
+  P = D.pg()
+  Any = P.typing.Any
+  events = []
+  def record(who, fu):
+    entry = (who, [(str(k), u.old_value, u.new_value) for k, u in fu.items()])
+    events.append(entry)
+  def handler(level):
+    def _on_change(self, field_updates):
+      if not getattr(self, '_recorded', None) is field_updates:        # one record per delivery, whichever levels of the MRO define a handler
+        self._recorded = field_updates
+        record(self, field_updates)
+      return super(classes[level], self)._on_change(field_updates)
+    return _on_change
+  classes = []
+  h = [bool(fam >> i & 1) for i in range(3)]
+  for level in range(3):
+    attrs = dict(allow_symbolic_assignment=True, __module__=__name__, __qualname__='B%d' % level)
+    if h[level]:
+      attrs['_on_change'] = handler(level)
+    cls = type('B%d' % level, (classes[-1] if classes else P.Object,), attrs)
+    if level == 0:
+      cls = P.members([('v', Any(default=0)), ('w', Any(default=None))])(cls)
+    classes.append(cls)
+  subscribes = [any(h[:i + 1]) for i in range(3)]
+  B0, B1, B2 = classes
+  inner = B0(v=0)
+  objs = [B0(v=0), B1(v=0), B2(v=0, w=inner)]
+  xs = P.List(list(objs), onchange_callback=lambda fu: record('list', fu))
+  root = P.Dict(xs=xs, onchange_callback=lambda fu: record('dict', fu))
+  probs = []
+  def expect(step, exp):
+    got = list(events); del events[:]
+    name = lambda w: w if isinstance(w, str) else 'the %s at %r' % (type(w).__name__, str(w.sym_path))
+    g = [(name(w), pl) for w, pl in got]; e = [(name(w), pl) for w, pl in exp]
+    if [w for w, _ in g] != [w for w, _ in e]:
+      probs.append(('C09/hierarchy/receivers/%s' % step.split(':')[0], '%s: the receivers are %s, expected %s' % (step, [w for w, _ in g], [w for w, _ in e])))
+    elif g != e:
+      bad = [(w, pl, ple) for (w, pl), (_, ple) in zip(g, e) if pl != ple][0]
+      probs.append(('C09/hierarchy/payload/%s' % step.split(':')[0], '%s: %s received %r, expected %r' % (step, bad[0], bad[1], bad[2])))
+  for i in perm:
+    old = objs[i].v
+    objs[i].v = 10 + i
+    expect('write: xs[%d].v = %d' % (i, 10 + i),
+           ([(objs[i], [('v', old, 10 + i)])] if subscribes[i] else []) + [('list', [('[%d].v' % i, old, 10 + i)]), ('dict', [('xs[%d].v' % i, old, 10 + i)])])
+  inner.v = 7
+  expect('nested-write: xs[2].w.v = 7',
+         ([(inner, [('v', 0, 7)])] if subscribes[0] else []) + ([(objs[2], [('w.v', 0, 7)])] if subscribes[2] else []) +
+         [('list', [('[2].w.v', 0, 7)]), ('dict', [('xs[2].w.v', 0, 7)])])
+  olds = [objs[0].v, objs[1].v]
+  root.rebind({'xs[0].v': 20, 'xs[1].v': 21, 'xs[2].w.v': 22})
+  expect('batch: rebind from the root',
+         ([(inner, [('v', 7, 22)])] if subscribes[0] else []) + ([(objs[2], [('w.v', 7, 22)])] if subscribes[2] else []) +
+         ([(objs[1], [('v', olds[1], 21)])] if subscribes[1] else []) + ([(objs[0], [('v', olds[0], 20)])] if subscribes[0] else []) +
+         [('list', [('[0].v', olds[0], 20), ('[1].v', olds[1], 21), ('[2].w.v', 7, 22)]),
+          ('dict', [('xs[0].v', olds[0], 20), ('xs[1].v', olds[1], 21), ('xs[2].w.v', 7, 22)])])
+  with P.notify_on_change(False):
+    objs[0].v = 30
+  expect('silent: write in a disabled scope', [])
+  return probs
+
+def hierarchy_sweep(ctx):
+  import itertools
+  n = 0
+  for fam in range(8):
+    for perm in itertools.permutations(range(3)):
+      n += 1
+      try:
+        probs = hierarchy_case(fam, perm)
+      except Exception as e:       # pylint: disable=broad-except
+        probs = [('C09/hierarchy/raises/%s' % type(e).__name__, 'the history raised %s: %s' % (type(e).__name__, str(e)[:200]))]
+      for sig, what in probs[:1]:
+        defs = ', '.join('B%d %s' % (i, 'defines _on_change' if fam >> i & 1 else 'defines no handler') for i in range(3))
+        ctx.hit(sig, 'classes B0 <- B1 <- B2 (%s), first notified in the order %s: %s' % (defs, list(perm), what), dict(hierarchy=[fam, list(perm)]))
+  ctx.extra['hierarchy_histories'] = n
+  return n
+
 # ---- the check ---------------------------------------------------------------------------------------------------------------------------
 def simple_key(k):
   """The key class of theorem C09_children_first (Proofs/SymCoreEventsOrder.v simple_key)."""
@@ -1501,6 +1638,10 @@ def run(ctx):
   bad = ctx.compare('SymCoreEvents.run vs pg.Dict / pg.List / pg.Object (outcome, snapshot, event log, memoised facts held, observed facts after every step)',
                     cases, impl_outs, model_outs, describe=lambda c: diffs.get(id(c)))
   try:
+    hierarchy_sweep(ctx)
+  except Exception as e:       # pylint: disable=broad-except
+    ctx.hit('C09/hierarchy/harness/%s' % type(e).__name__, 'the hierarchy sweep raised %s: %s' % (type(e).__name__, str(e)[:200]), dict(hierarchy=[0, [0, 1, 2]]))
+  try:
     scope_checks(ctx)
   except Exception as e:       # pylint: disable=broad-except
     ctx.hit('C09/silent/scope-checks/raises', 'the notification-flag checks raised %s: %s' % (type(e).__name__, str(e)[:200]), dict(scope_check=True))
@@ -1559,6 +1700,11 @@ def replay(ctx, rp):
     for h in pc.h:
       print('  still fails:', h[0], '|', h[1])
     return not pc.h
+  if isinstance(c, dict) and 'hierarchy' in c:
+    probs = hierarchy_case(c['hierarchy'][0], tuple(c['hierarchy'][1]))
+    for h in probs:
+      print('  still fails:', h[0], '|', h[1])
+    return not probs
   if isinstance(c, dict) and c.get('scope_check'):
     class _C:
       def __init__(self): self.h = []; self.extra = {}
